@@ -125,3 +125,12 @@ package timeout
 //@   loop 1
 //@     invariant c != nil && c == c0
 //@     invariant f != nil ==> exists(g, *future, g.f == f && g.idx < 0 && before(g.fireT, clock))
+
+// diagnostics: reads a future's fields under the lock, changes nothing
+//@ func (c *callControl) futureAsString(fu *future) string
+//@   props C12
+//@   requires c != nil && fu != nil
+
+//@ func (fu *future) String() string
+//@   props C12
+//@   requires fu != nil
